@@ -55,7 +55,8 @@ def canon_expected(v):
 
 MODS = ["x := 10\nreturn {v: x, f: func(a) { return a + x }}\n",
         "m1 := import(\"m1\")\nreturn {g: func() { return m1.f(1) }, bad: func() { return [][1] }}\n",
-        "[1][5]\n", "throw \"first byte of a module\""]
+        "[1][5]\n", "throw \"first byte of a module\"",
+        "", "\n"]       # m5: a source file of zero bytes, m6: of one byte
 
 def run(rep, br, proofs, rng, tier):
     nv = 1500 if tier == "quick" else 30000
@@ -106,7 +107,9 @@ def run(rep, br, proofs, rng, tier):
              "f := func() { return func() { return [1][5] } }\nreturn f()()\n",
              # errors whose position is the very first or the very last byte of a file, in the main file and in imported ones
              "throw \"boom\"\n", "[1][5]\n", "[1][5]", "x := 1\nimport(\"m3\")\n", "import(\"m3\")", "y := import(\"m1\")\nimport(\"m4\")",
-             "import(\"m4\")\n", "z := import(\"m2\")\nw := import(\"m1\")\nreturn z.bad()", "x := 1\nthrow x"]
+             "import(\"m4\")\n", "z := import(\"m2\")\nw := import(\"m1\")\nreturn z.bad()", "x := 1\nthrow x",
+             # source files of zero bytes and of one byte: the main script, an imported module
+             "", "\n", " ", "e := import(\"m5\")\nreturn [e, import(\"m6\")]\n", "import(\"m5\")", "f := func() { return import(\"m5\") }\nreturn [f(), [1][3]]\n"]
     progs += [g.program() for _ in range(np_)]
     pcases = [mk_case("p%d" % i, "encprog", hexs(s.encode()), *[hexs(m.encode()) for m in MODS]) for i, s in enumerate(progs)]
     impl_p, _ = vlib.run_impl([c["line"] for c in pcases], timeout=2400)
